@@ -120,7 +120,7 @@ Print Assumptions C18_never_addressee_routed_refuted.
 (* anything but a message on interface Peer without destination: the monitor is gone, nothing is emitted,
    registry, rules and pending replies are untouched *)
 Theorem C18_send_closes : forall st e x,
-  is_monitor st x = true -> actor e = Some x -> wf_event st e = true ->
+  creachable st -> is_monitor st x = true -> actor e = Some x -> wf_event st e = true ->
   (forall m, wire_msg e = Some m -> peer_local m = false) ->
   closes st e x.
 Proof. exact send_closes. Qed.
